@@ -62,8 +62,10 @@ func (node *Node) processUnconfirmedTx(ctx context.Context, tx handlers.TxData) 
 				continue // Only send for txs that previously matched filters.
 			}
 
+			node.txStateLock.Lock()
 			txState, err := handlerstorage.FetchTxState(ctx, node.store, conflict)
 			if err != nil {
+				node.txStateLock.Unlock()
 				continue
 			}
 
@@ -71,6 +73,7 @@ func (node *Node) processUnconfirmedTx(ctx context.Context, tx handlers.TxData) 
 			txState.State.Safe = false
 
 			if err := handlerstorage.SaveTxState(ctx, node.store, txState); err != nil {
+				node.txStateLock.Unlock()
 				return errors.Wrap(err, "save tx state")
 			}
 
@@ -83,6 +86,7 @@ func (node *Node) processUnconfirmedTx(ctx context.Context, tx handlers.TxData) 
 			for _, handler := range node.handlers {
 				handler.HandleTxUpdate(ctx, update)
 			}
+			node.txStateLock.Unlock()
 		}
 	}
 
